@@ -53,7 +53,7 @@ def qualified_names():
             m = _re.match(r'\s*(?:pub )?fn (\w+)\(', line)
             if m:
                 out.setdefault(m.group(1), prefix + ('::' + cur_mod if cur_mod else '') + '::' + m.group(1))
-            m = _re.match(r'\s*(?:token_harness|glue_harness|parse_harness|parse_glue_harness|write_u32_harness)!\((\w+),', line)
+            m = _re.match(r'\s*(?:token_harness|glue_harness|parse_harness|parse_glue_harness|write_u32_harness|parse_picture_harness)!\((\w+),', line)
             if m:
                 out.setdefault(m.group(1), prefix + '::' + m.group(1))
     return out
